@@ -75,7 +75,18 @@ class Builder:
         self.nframe = rng.randrange(0, 200)
 
     def op(self, **kw):
+        # the way a link dies / an attempt fails: every OSError family a TCP stack reports
+        if kw.get("op") in ("peer_reset", "arm_fault"):
+            kw.setdefault("exc", self._xrng().choice(["reset", "reset", "timeout", "unreach", "netdown", "pipe"]))
+        elif kw.get("op") in ("resolve", "resolve_all") and kw.get("how") == "refuse":
+            kw.setdefault("exc", self._xrng().choice(["refused", "refused", "timeout", "unreach"]))
         self.script.append(kw)
+
+    def _xrng(self):
+        if not hasattr(self, "_xr"):
+            import random as _r
+            self._xr = _r.Random(len(self.script) * 7919 + self.nid)
+        return self._xr
 
     def call(self, method, args=None, **kw):
         cid = self.nid
@@ -140,6 +151,7 @@ class Builder:
             self.op(op="sub", who="cs", kind="connection", sends={"msg": m, "policy": POL_CONN})
 
     def heal(self):
+        self.op(op="resume")
         self.op(op="quiesce")
         self.op(op="mark", tag="healbegin")
         self.op(op="auto", how="ok")
@@ -179,14 +191,14 @@ def random_script(seed, proto="at4", n_ops=30, profile="mixed"):
                sending_sub=(profile in ("faults", "mixed", "retry", "close") and rng.random() < 0.4))
     w = {
         "order":  dict(send=10, step=4, quiesce=3, ok=4, refuse=2, adv=3, good=1),
-        "retry":  dict(send=8, step=4, quiesce=3, ok=4, refuse=2, adv=4, fault=5, reset=2, eof=1, good=1),
+        "retry":  dict(send=8, step=4, quiesce=3, ok=4, refuse=2, adv=4, fault=5, reset=2, eof=1, good=1, stall=2, unstall=2),
         "faults": dict(send=5, step=5, quiesce=3, ok=5, refuse=3, adv=3, fault=3, reset=3, eof=3, good=3,
                        badcrc=2, bit=2, prefix=1, garbage=2, bad=2, unreg=1, apireset=2, cutfeed=2),
-        "queue":  dict(send=14, step=2, quiesce=2, ok=1, refuse=2, adv=5, bad=1),
+        "queue":  dict(send=14, step=2, quiesce=2, ok=1, refuse=2, adv=5, bad=1, okstall=1, unstall=1),
         "close":  dict(send=5, step=4, quiesce=2, ok=4, refuse=3, adv=3, fault=2, reset=2, eof=1, good=2,
                        closeopen=2),
         "mixed":  dict(send=8, step=5, quiesce=3, ok=5, refuse=3, adv=4, fault=3, reset=2, eof=2, good=3,
-                       badcrc=1, bit=1, garbage=1, bad=1, unreg=1, apireset=1, cutfeed=1, closeopen=1),
+                       badcrc=1, bit=1, garbage=1, bad=1, unreg=1, apireset=1, cutfeed=1, closeopen=1, stall=1, okstall=1, unstall=2),
     }[profile]
     kinds = list(w)
     weights = [w[k] for k in kinds]
@@ -224,6 +236,15 @@ def random_script(seed, proto="at4", n_ops=30, profile="mixed"):
             b.feed(k)
         elif k == "apireset":
             b.call("reset_connection")
+        elif k == "stall":                   # the peer stops reading: now, or when the n-th next write fills the buffer
+            if rng.random() < 0.5:
+                b.op(op="pause")
+            else:
+                b.op(op="arm_pause", nth=rng.randrange(1, 4))
+        elif k == "okstall":                 # a connection whose send buffer fills with the n-th write
+            b.op(op="resolve", how="ok", pause_in=rng.randrange(1, 4))
+        elif k == "unstall":
+            b.op(op="resume")
         elif k == "closeopen":
             b.call("close")
             b.op(op="step", k=rng.randrange(0, 5))
@@ -320,6 +341,45 @@ def expiry_boundary(seed, proto):
     b.heal()
     b.shutdown()
     return b.script, {"enc": b.enc, "blockers": [], "proto": proto, "profile": "expiry", "seed": seed}
+
+
+def stalled_drain(seed, proto):
+    """Messages of mixed lifetimes held while the link is down; the connection that arrives stalls on
+    its n-th write (the console does not read); the clock crosses some expiries during the stall; the
+    stall ends.  Held messages whose lifetime ran out meanwhile must not appear; the others appear
+    once, in order.  Also: sends issued during the stall."""
+    rng = random.Random(seed)
+    b = Builder(proto, rng)
+    b.preamble()
+    b.op(op="quiesce")
+    if rng.random() < 0.4:
+        b.op(op="resolve", how="refuse")
+        b.op(op="quiesce")
+    pols = [POL_IDEM, POL_NONIDEM, POL_CONN, {"policy": {"retries": 1, "lifetime_ms": 2000}}]
+    for _ in range(rng.randrange(2, 9)):
+        b.send(rng.choice(pols))
+        if rng.random() < 0.5:
+            b.op(op="quiesce")
+        if rng.random() < 0.2:
+            b.op(op="advance", by=rng.choice([125, 250, 500]))
+    b.op(op="quiesce")
+    b.op(op="resolve_all", how="refuse")
+    b.op(op="quiesce")
+    b.op(op="resolve", how="ok", pause_in=rng.randrange(1, 4))
+    b.op(op="step", k=rng.randrange(1, 4))
+    for _ in range(rng.randrange(1, 4)):
+        b.op(op="advance", by=rng.choice([125, 500, 875, 1000, 1125, 1875, 2000, 2125]))
+        if rng.random() < 0.4:
+            b.send(rng.choice(pols))
+        if rng.random() < 0.3:
+            b.op(op="quiesce")
+    b.op(op="resume")
+    b.op(op="quiesce")
+    if rng.random() < 0.3:
+        b.op(op="advance", by=rng.choice([29875, 30000, 30125]))
+    b.heal()
+    b.shutdown()
+    return b.script, {"enc": b.enc, "blockers": [], "proto": proto, "profile": "stalled_drain", "seed": seed}
 
 
 def shutdown_at(seed, proto):
